@@ -509,4 +509,129 @@ theorem C04_reads_commute (s₀ : Readers) (σ : List Nat) :
 example : ((Readers.mk (index witnessArchive) (fun _ => [.exist (.dir ['d', '.', 'e']), .read ['d', '.', 'e', '.', 'f'] ['x']]) (fun _ => [])).run
     [0, 1, 1, 0]).progs 0 = [] := by decide
 
+/-! ## FileSystem -/
+
+/-- Full strength: the file-system view of a valid tree is the specification view. -/
+def C04_fs_stmt : Prop := ∀ t, ValidTree t → ViewEq (fsView t) (sem t)
+
+/-- **Kind confusion** (`FileSystem::exists` is `Path::exists`): in the tree with the single
+directory `d`, `exists(File("d", ""))` is true although no such file exists (and `read("d", "")`
+fails with *is a directory* instead of *not found*). -/
+theorem C04_fs_refuted : ¬ C04_fs_stmt := by
+  intro h
+  have := (h ⟨[], [[['d']]]⟩ (by decide)).exist (.file ['d'] [])
+  revert this
+  decide
+
+theorem C04_fs_refuted_read : (fsView ⟨[], [[['d']]]⟩).read ['d'] [] = .err .isDir ∧
+    (sem ⟨[], [[['d']]]⟩).read ['d'] [] = .err .notFound := by decide
+
+theorem comps_of_id (cs : List Name) (hv : ∀ c ∈ cs, ValidName c) :
+    (splitDot (joinDot cs)).filter (· ≠ []) = cs := by
+  have hfilter : cs.filter (· ≠ []) = cs := by
+    apply List.filter_eq_self.mpr
+    intro c hc
+    simpa using (hv c hc).1
+  cases cs with
+  | nil => simp [joinDot, splitDot]
+  | cons c cs' =>
+    rw [split_join _ (by simp) (fun w hw => (hv w hw).2)]
+    exact hfilter
+
+/-- Two valid component lists with the same id are equal (id → path is injective). -/
+theorem joinDot_inj (a b : List Name) (ha : ∀ c ∈ a, ValidName c) (hb : ∀ c ∈ b, ValidName c)
+    (h : joinDot a = joinDot b) : a = b := by
+  rw [← comps_of_id a ha, ← comps_of_id b hb, h]
+
+/-- `path_of_entry(File(id, ext))` of a well-formed id is the path of the file `stem.ext` in the
+directory named by the other components. -/
+theorem pathOfEntry_file (ini : List Name) (l ext : Name) (hi : ∀ c ∈ ini, ValidName c) (hl : ValidName l) :
+    pathOfEntry (joinDot (ini ++ [l])) (some ext) = some (filePath ⟨ini, l, ext, []⟩) := by
+  have hv : ∀ c ∈ ini ++ [l], ValidName c := by
+    intro c hc
+    rcases List.mem_append.mp hc with h | h
+    · exact hi c h
+    · simpa [List.mem_singleton.mp h] using hl
+  simp only [pathOfEntry, comps_of_id _ hv, List.getLast?_append, List.getLast?_singleton, List.dropLast_concat]
+  simp [setExtension, splitExt_dotfree l hl, filePath, fileName]
+
+theorem filePath_eq_iff (f : FileN) (ini : List Name) (l ext : Name) (hs : ValidName f.stem) (he : ValidExt f.ext)
+    (hl : ValidName l) (hx : ValidExt ext) :
+    filePath f = filePath ⟨ini, l, ext, []⟩ ↔ f.dir = ini ∧ f.stem = l ∧ f.ext = ext := by
+  constructor
+  · intro h
+    obtain ⟨h1, h2⟩ := List.append_singleton_inj.mp h
+    have a := splitExt_fileName f hs he
+    have b := splitExt_fileName ⟨ini, l, ext, []⟩ hl hx
+    rw [h2] at a
+    exact ⟨h1, a.1.symm.trans b.1, a.2.symm.trans b.2⟩
+  · rintro ⟨h1, h2, h3⟩
+    simp [filePath, fileName, h1, h2, h3]
+
+/-- The path of a file `stem.ext` (non-empty extension) is never a directory of a valid tree. -/
+theorem filePath_not_dir (t : Tree) (hv : ValidTree t) (ini : List Name) (l ext : Name) (hne : ext ≠ []) :
+    filePath ⟨ini, l, ext, []⟩ ∉ t.dirs := by
+  intro h
+  have := (hv.2.1 _ h).2.1 (fileName ⟨ini, l, ext, []⟩) (by simp [filePath])
+  have hx : ext.isEmpty = false := by cases ext <;> simp_all
+  exact this.2 (by simp [fileName, hx])
+
+/-- **FileSystem, outside kind confusion**: for a well-formed file id (valid components) whose
+path does not run through an extension-less file, and which is not `(directory id, "")`,
+`FileSystem::read` and `exists(File ..)` answer as the specification does. -/
+theorem C04_fs_partial (t : Tree) (hv : ValidTree t) (ini : List Name) (l ext : Name)
+    (hi : ∀ c ∈ ini, ValidName c) (hl : ValidName l) (hx : ValidExt ext)
+    (hthrough : fsResolve t (filePath ⟨ini, l, ext, []⟩) ≠ .notDir)
+    (hkind : ¬ (ext = [] ∧ ini ++ [l] ∈ t.dirs)) :
+    (fsView t).read (joinDot (ini ++ [l])) ext = (sem t).read (joinDot (ini ++ [l])) ext ∧
+    (fsView t).exist (.file (joinDot (ini ++ [l])) ext) = (sem t).exist (.file (joinDot (ini ++ [l])) ext) := by
+  have hvcs : ∀ c ∈ ini ++ [l], ValidName c := by
+    intro c hc
+    rcases List.mem_append.mp hc with h | h
+    · exact hi c h
+    · simpa [List.mem_singleton.mp h] using hl
+  -- the path is not a directory
+  have hnd : ¬ (filePath ⟨ini, l, ext, []⟩ = [] ∨ filePath ⟨ini, l, ext, []⟩ ∈ t.dirs) := by
+    rintro (h | h)
+    · simp [filePath] at h
+    · by_cases hext : ext = []
+      · apply hkind; refine ⟨hext, ?_⟩; simpa [filePath, fileName, hext] using h
+      · exact filePath_not_dir t hv ini l ext hext h
+  -- both sides look for the same file
+  have hpred : ∀ f ∈ t.files, (decide (filePath f = filePath ⟨ini, l, ext, []⟩)) =
+      decide (fileId f = joinDot (ini ++ [l]) ∧ f.ext = ext) := by
+    intro f hf
+    have hfv := hv.1 f hf
+    have hfcs : ∀ c ∈ f.dir ++ [f.stem], ValidName c := by
+      intro c hc
+      rcases List.mem_append.mp hc with h | h
+      · exact hfv.1 c h
+      · simpa [List.mem_singleton.mp h] using hfv.2.1
+    rw [decide_eq_decide, filePath_eq_iff f ini l ext hfv.2.1 hfv.2.2.1 hl hx]
+    constructor
+    · rintro ⟨h1, h2, h3⟩; exact ⟨by simp [fileId, h1, h2], h3⟩
+    · rintro ⟨h1, h3⟩
+      have := List.append_singleton_inj.mp (joinDot_inj _ _ hfcs hvcs h1)
+      exact ⟨this.1, this.2, h3⟩
+  have hfind : t.files.find? (fun f => decide (filePath f = filePath ⟨ini, l, ext, []⟩)) =
+      t.files.find? (fun f => decide (fileId f = joinDot (ini ++ [l]) ∧ f.ext = ext)) :=
+    find?_congr' _ _ _ hpred
+  have hres : fsResolve t (filePath ⟨ini, l, ext, []⟩) =
+      match t.files.find? (fun f => decide (fileId f = joinDot (ini ++ [l]) ∧ f.ext = ext)) with
+      | some f => .found (.file f.bytes)
+      | none => .absent := by
+    unfold fsResolve at hthrough ⊢
+    split
+    · rename_i h; simp [h] at hthrough
+    · simp only [fsNode, hnd, if_false, hfind]
+      cases t.files.find? (fun f => decide (fileId f = joinDot (ini ++ [l]) ∧ f.ext = ext)) <;> rfl
+  constructor
+  · simp only [fsView, pathOfEntry_file ini l ext hi hl, hres, sem]
+    cases t.files.find? (fun f => decide (fileId f = joinDot (ini ++ [l]) ∧ f.ext = ext)) <;> rfl
+  · simp only [fsView, pathOfEntry_file ini l ext hi hl, hres, sem, any_eq_find_isSome]
+    cases t.files.find? (fun f => decide (fileId f = joinDot (ini ++ [l]) ∧ f.ext = ext)) <;> rfl
+
+example : fsResolve witnessTree (filePath ⟨[['d'], ['e']], ['f'], ['x'], []⟩) ≠ .notDir ∧
+    ¬ ((['x'] : Name) = [] ∧ [['d'], ['e']] ++ [['f']] ∈ witnessTree.dirs) := by decide
+
 end AmVerif.Props.C04
